@@ -201,6 +201,16 @@ class WriterRun:
             self.extra_on_call(call)
         nm = call.name or ""
         st = call.st
+        if nm.split("::")[-1] in ("as_vint", "as_vint_with_length", "size_as_vint", "size_as_vint_with_length") and (nm.startswith("tools::") or nm.startswith("tag_writer::")):
+            # which size-field encoder is reached, with its width parameter (R-WIDTH-TABLE, element classes)
+            cgs = ""
+            for a in (call.callee.get("args") or []):
+                if a.get("k") == "cval":
+                    cgs = "<%s>" % a["v"]
+                elif a.get("k") == "cparam":
+                    v = call.frame.cparams.get(a["name"])
+                    cgs = "<%s>" % (v if v is not None else a["name"])
+            self.event(call, "enc", nm.split("::")[-1] + cgs)
         if not nm.startswith(WRITER + "::") and not nm.startswith("tag_writer::size_as_vint"):
             return
         short = nm.split("::")[-1]
@@ -469,7 +479,26 @@ def r_width_table(ctx):
     muts = [(d) for (kd, d, g) in run.events if kd == "mutate" and d[0] == "wb"]
     rep.instance("end_tag of an unknown-size master -> %s, buffer mutations %s" % (enc, muts))
     rep.oblige(not enc and not muts, "WIDTH-TABLE|end|unknown", "src/tag_writer.rs", "ending an unknown-size master writes a size field (%s, %s)" % (enc, muts))
-    rep.require_floor(28, "width classes")
+    # elements other than masters: the width requested for the call is the width of the size field that is written, for every data type and for
+    # ids outside the specification (raw tags); no width / width 0 uses the minimal form.  Decided by which size-field encoder is reached from
+    # write_explicit_sized::<k> (through whatever helpers): with k > 0 only fixed-width encoders instantiated with k, never the minimal one.
+    for t in ["UnsignedInt", "Integer", "Utf8", "Binary", "Float", None]:
+        for k in range(0, 9):
+            run = WriterRun(prog, "TagWriter::write_explicit_sized", tag_type=t, cparams={"SIZE_LENGTH": k})
+            run.run_explicit = True
+            _run_explicit(run)
+            encs = sorted({d for (kd, d, g) in run.events if kd == "enc"})
+            fixed = [e for e in encs if "with_length" in e]
+            minimal = [e for e in encs if "with_length" not in e]
+            oks = [e for e in run.exits if not [x for x in e.tag if x[0] == "err"]]
+            rep.instance("write_explicit_sized::<%d> of a %s element -> size encoders %s" % (k, t or "raw (id outside the specification)", encs))
+            rep.oblige(bool(oks), "WIDTH-TABLE|elem|%s|k=%d|writes" % (t, k), "src/tag_writer.rs", "write_explicit_sized::<%d> never succeeds for a %s element" % (k, t))
+            if k > 0:
+                good = bool(fixed) and all(e.endswith("<%d>" % k) for e in fixed) and not minimal
+                rep.oblige(good, "WIDTH-TABLE|elem|%s|k=%d" % (t, k), "src/tag_writer.rs",
+                           "a %s element written with size width %d reaches the size encoders %s (expected only fixed-width encoders instantiated with %d)" % (t or "raw", k, encs, k))
+            # k = 0: the minimal form is R-SIZE-TABLE's business (the minimal encoder itself widens by one byte to avoid the reserved pattern)
+    rep.require_floor(28 + 54, "width classes")
     return rep
 
 
